@@ -94,6 +94,7 @@ class Stats:
         self.errors: list = []
         self.per_family: dict = {}
         self.exhaustive: list = []
+        self.violation_counts: dict = {}
 
     def merge(self, other: "Stats") -> None:
         self.evaluations += other.evaluations
@@ -111,6 +112,8 @@ class Stats:
             d["evaluations"] += v["evaluations"]
             d["nontrivial"] += v["nontrivial"]
         self.exhaustive.extend(other.exhaustive)
+        for k, v in other.violation_counts.items():
+            self.violation_counts[k] = self.violation_counts.get(k, 0) + v
 
 
 def digest(case: Any) -> str:
@@ -207,6 +210,8 @@ def _record(stats: Stats, check: Check, active: list, fam: Family, case: Any, ou
         else:
             # keep a few per failure shape so that one shallow defect does not hide the others
             kind = out.kind or "violation"
+            ck = f"{fam.name}/{kind}"
+            stats.violation_counts[ck] = stats.violation_counts.get(ck, 0) + 1
             same = sum(1 for v in stats.violations if v[0] == fam.name and v[3] == kind)
             if same < 3 and len(stats.violations) < 90:
                 stats.violations.append((fam.name, case, out.violation, kind))
@@ -475,6 +480,7 @@ def _write_evidence(check: Check, tier: str, seed: int, total: Stats, t0: float,
             "excluded_known": total.excluded_known,
             "inconclusive": total.inconclusive,
             "regression_replays": n_regress,
+            "violating_cases_by_kind": total.violation_counts,
         },
         "assumptions": check.assumptions,
         "wall_s": round(time.time() - t0, 2),
